@@ -120,6 +120,13 @@ claim('C19', 'effect-site gates (size cap on the fetched descriptor, per loop it
       'fresh target, non-nil subject content.Equal to the requested descriptor, and the notation artifact type read from the manifest decoded in that iteration, returning nothing on failure; PushSignature pushes the caller\'s media type and bytes and packs subject, annotations, the pushed blob as the single layer '
       'and the immutable notation config whose media type is the type the listing filters on. NOT decided: byte equality itself (content addressing of oras-go is trusted) and histories in a real layout.', 'DESIGN.md 2/C19')
 
+claim('C20', 'effect inventory + effect-site gates + finite decision table by abstract interpretation of Install (216 scenarios) + ordering (dominance and cut sets) + constant-pattern classification + closure analysis of the WalkDir callbacks + sibling agreement (binName / parsePluginName)',
+      'Static, all-paths: every call of CLIManager.Install that can modify the plugin directory is reachable only after non-empty source, certified name validation, NewCLIPlugin and GetMetadata success of the new plugin, on that one name; the decision table over '
+      'source kind x overwrite x existence x metadata error x comparison error x comparison result shows an effect is reachable exactly when the source is usable and (overwrite, or nothing installed, or comparison succeeded with new > existing), the first effect always being the clean-up and each source kind reaching only its own copy routine; '
+      'copies happen only after the clean-up returned nil or not-exist, into SysPath(name); success only after a successful copy; ComparePluginVersion validates both versions with the constant pattern (classified against the semver.org corpus) before x/mod Compare in (new, existing) order; '
+      'both WalkDir callbacks return SkipDir for every directory whose path differs from the walk root; candidates are regular files; the (executable, name) pair comes from one entry; the directory copy copies exactly the regular top-level entries to Join(dst, Base(src)); binName and parsePluginName share the prefix constant. '
+      'NOT decided: a copy failing half-way after the clean-up (file-system behaviour), operation histories.', 'DESIGN.md 2/C20')
+
 NA_REASON = {}
 
 def main():
